@@ -55,15 +55,16 @@ Definition place (hdr limit namelen : N) : N * N :=
                else round_u32 limit c_pageSize in
   (start, u32 (start + n)).
 
-(* load32: 0 at or beyond the end of the mapping *)
+(* load32: 0 unless the four bytes lie inside the mapping *)
 Definition load32 (bs : bytes) (off : N) : N :=
-  if len bs <=? off then 0 else get32 bs off.
+  if len bs <? off + 4 then 0 else get32 bs off.
 
 
-(* entryAt: Some (name, next, value).  sz is len(m.mapping.Data) (passed in
+(* entryAt: Some (name, next, value); offsets that are not 8-byte aligned are
+   refused (the value is read with a 64-bit atomic load).  sz is len(m.mapping.Data) (passed in
    so that the extracted walks measure the mapping once) *)
 Definition entry_at_sz (sz : N) (bs : bytes) (hdr off : N) : option (bytes * N * N) :=
-  if (off <? hdr + c_hashOff) || (sz <? off + 16) then None else
+  if (off <? hdr + c_hashOff) || negb (off mod 8 =? 0) || (sz <? off + 16) then None else
   let t := dropN bs off in
   let nl := N.land (get32 t 8) 16777215 in
   if (nl =? 0) || (sz <? off + 16 + nl) then None else
@@ -78,7 +79,7 @@ Definition entry_at (bs : bytes) (hdr off : N) : option (bytes * N * N) :=
 Inductive entry_result :=
   | EPanic | ENone | ESome (name : bytes) (next v : N).
 Definition entry_at_u32 (bs : bytes) (hdr off : N) : entry_result :=
-  if (off <? u32 (hdr + c_hashOff)) || (len bs <? off + 16) then ENone else
+  if (off <? u32 (hdr + c_hashOff)) || negb (off mod 8 =? 0) || (len bs <? off + 16) then ENone else
   let nl := N.land (load32 bs (u32 (off + 8))) 16777215 in
   if (nl =? 0) || (len bs <? off + 16 + nl) then ENone else
   let lo := u32 (off + 16) in
@@ -107,7 +108,7 @@ Fixpoint lookup_walk (fuel : nat) (sz : N) (bs : bytes) (hdr : N) (name : bytes)
   end.
 
 Definition load32_sz (sz : N) (bs : bytes) (off : N) : N :=
-  if sz <=? off then 0 else get32 bs off.
+  if sz <? off + 4 then 0 else get32 bs off.
 
 Definition lookup_sz (sz : N) (bs : bytes) (hdr : N) (name : bytes) : lookup_result :=
   lookup_walk (walk_fuel_sz sz) sz bs hdr name 0 (load32_sz sz bs (head_off hdr (hash name))).
